@@ -41,8 +41,26 @@ fn parse_list(s: &str) -> Option<Vec<(Desc, usize)>> {
     inner.split(',').map(parse_entry).collect()
 }
 
-pub fn check(cfg: &Cfg, cap: usize, ops: &[String], outs: &[String]) -> Vec<Violation> {
+pub fn check(cfg: &Cfg, cap: usize, max_entry: usize, ops: &[String], outs: &[String]) -> Vec<Violation> {
     let mut v = check_inner(cfg, cap, ops, outs);
+    // C01/C02/C03 quantify over payload sizes "up to the advertised limits": once a single entry larger than
+    // MAX_ALLOC was offered, later delivery mismatches are C04's (rejected appends leave no trace) and C15's.
+    let first_oversize = ops.iter().position(|op| {
+        let t: Vec<&str> = op.split_whitespace().collect();
+        match t.first().copied() {
+            Some("append") => Desc::parse(t[2]).len > max_entry,
+            Some("batch") => parse_batch(t[2]).iter().any(|d| d.len > max_entry),
+            _ => false,
+        }
+    });
+    if let Some(fo) = first_oversize {
+        for x in v.iter_mut() {
+            if x.line > fo + 1 && matches!(x.prop, "C01" | "C02" | "C03") {
+                x.prop = "C04";
+                x.msg = format!("after the over-limit entry at line {}: {}", fo + 1, x.msg);
+            }
+        }
+    }
     // C04: a rejected append must leave no trace. Any delivery/count mismatch that follows a rejected
     // append or batch in the same program is (also) a violation of C04.
     let first_reject = ops.iter().zip(outs.iter()).position(|(op, out)| (op.starts_with("append") || op.starts_with("batch")) && out.starts_with("err:"));
